@@ -5,6 +5,8 @@ import (
 	"bytes"
 	"fmt"
 	"io"
+	"os"
+	"path/filepath"
 	"math/big"
 	"sort"
 	"testing"
@@ -12,6 +14,7 @@ import (
 
 	"gitlab.com/gomidi/midi/v2"
 	"gitlab.com/gomidi/midi/v2/smf"
+	"gitlab.com/gomidi/midi/v2/zverif/adapt"
 	"gitlab.com/gomidi/midi/v2/zverif/ev"
 	"gitlab.com/gomidi/midi/v2/zverif/ref/tempo"
 	"pgregory.net/rapid"
@@ -216,7 +219,27 @@ func run(c Case) (res ev.Result) {
 		var gotUS []int64
 		var derr error
 		if p := ev.TryTimeout(ev.Watchdog, func() {
-			trd := smf.ReadTracksFrom(bytes.NewReader(buf.Bytes()))
+			var trd *smf.TracksReader
+			if c.Pipeline == 3 || len(c.Queries)%5 == 0 {
+				// from a named file that held other contents of the same size a moment ago (the
+				// same tracks with other tempi), which were read from there as well
+				dir, err := os.MkdirTemp("", "verif-c11-")
+				if err != nil {
+					panic(err)
+				}
+				defer os.RemoveAll(dir)
+				path := filepath.Join(dir, "song.mid")
+				if err := os.WriteFile(path, adapt.TempoDecoy(buf.Bytes()), 0o644); err != nil {
+					panic(err)
+				}
+				smf.ReadTracks(path).Do(func(smf.TrackEvent) {})
+				if err := os.WriteFile(path, buf.Bytes(), 0o644); err != nil {
+					panic(err)
+				}
+				trd = smf.ReadTracks(path)
+			} else {
+				trd = smf.ReadTracksFrom(bytes.NewReader(buf.Bytes()))
+			}
 			if len(c.Queries)%2 == 0 {
 				trd = trd.Only(midi.NoteOnMsg) // every second case: iterate with a type filter
 			}
@@ -328,7 +351,7 @@ func genCase(t *rapid.T) Case {
 }
 
 var maps = ev.NewCheck("C11", "tempo-maps",
-	"rapid: resolution 1..32767, one tempo track with 0..40 raw FF 51 03 events (microseconds per quarter over 1..2^24-1, biased to extremes), deltas biased to 0 (repeated ticks), first event at tick 0 or later, optional non-tempo metas in between, optional 1..3 further tracks with channel events, placed before and/or after the tempo track; file written and read back, in half of the cases a further track is added to the value that was read (SMF.Add) and/or it is exported once (WriteTo) before any time is asked for; queries = every tempo tick and +-1, random ticks up to min(2^32-1, 8 days of map time); oracle = exact rational integral of the tempo map (120 BPM before the first event, last event at a tick wins): |TimeAt(t) - exact| <= k+1 us (k = distinct-tick segments below t), TimeAt non-decreasing, TracksReader.Do (plain, and with an Only(NoteOn) type filter where program changes carry the delta and the note follows on the same tick) gives AbsTicks per track and AbsMicroSeconds == TimeAt(AbsTicks); non-trivial = a query tick beyond the second tempo segment; distinct by case hash",
+	"rapid: resolution 1..32767, one tempo track with 0..40 raw FF 51 03 events (microseconds per quarter over 1..2^24-1, biased to extremes), deltas biased to 0 (repeated ticks), first event at tick 0 or later, optional non-tempo metas in between, optional 1..3 further tracks with channel events, placed before and/or after the tempo track; file written and read back, in half of the cases a further track is added to the value that was read (SMF.Add) and/or it is exported once (WriteTo) before any time is asked for; queries = every tempo tick and +-1, random ticks up to min(2^32-1, 8 days of map time); oracle = exact rational integral of the tempo map (120 BPM before the first event, last event at a tick wins): |TimeAt(t) - exact| <= k+1 us (k = distinct-tick segments below t), TimeAt non-decreasing, TracksReader.Do (from memory or, one case in three, from a named file that held the same tracks with other tempi a moment ago and was read then as well; plain, and with an Only(NoteOn) type filter where program changes carry the delta and the note follows on the same tick) gives AbsTicks per track and AbsMicroSeconds == TimeAt(AbsTicks); non-trivial = a query tick beyond the second tempo segment; distinct by case hash",
 	genCase, run)
 
 func TestPropTempoMaps(t *testing.T) { maps.Rapid(t, 3000, 60000) }
